@@ -675,6 +675,50 @@ def r27_dur_table(ctx):
               pf.loc(), "a leading '-' is consumed before matching",
               "Duration.__str__ writes a leading '-' the parser does not "
               "consume", P)
+    # numbers: the writer renders a unit value with str() (shortest exact
+    # repr); the reader must accept every spelling str() of a float can
+    # produce, including the exponent form of very small / large values
+    lossy = []
+    for n in walk_no_nested(f.node):
+        if isinstance(n, ast.BinOp) and isinstance(n.op, ast.Mod) and \
+                isinstance(n.left, ast.Constant) and isinstance(
+                    n.left.value, str) and re.search(
+                        r"%[-+ #0]*\d*(?:\.\d+)?[fFeEgG]", n.left.value):
+            lossy.append(U(n)[:50])
+        if isinstance(n, ast.Call) and U(n.func) in ("round", "format") and \
+                len(n.args) >= 2:
+            lossy.append(U(n)[:50])
+        if isinstance(n, ast.FormattedValue) and n.format_spec is not None \
+                and re.search(r"[fFeEgG]", U(n.format_spec)):
+            lossy.append(U(n)[:50])
+    rep.check(not lossy, rule, ctx.fkey(f, None, "full-precision"), f.loc(),
+              "unit values are written with str(): every digit of the value "
+              "is in the text",
+              "Duration.__str__ formats a unit value with a fixed precision "
+              "(%s): digits beyond it are dropped, so the duration read back "
+              "is a different one" % lossy, P)
+    samples = {"hours": "H", "minutes": "M", "seconds": "S"}
+    numbers = ["12", "0,5", "0.25", "5e-05", "2,5e-07", "1e+16"]
+    unread = []
+    for unit, des in samples.items():
+        for num in numbers:
+            text = "PT%s%s" % (num, des)
+            hit = None
+            for r in regs:
+                if isinstance(r, Regex):
+                    m_ = re.compile(r.pattern, r.flags).search(text)
+                    if m_ and m_.groupdict().get(unit) == num:
+                        hit = m_
+                        break
+            if hit is None:
+                unread.append(text)
+    rep.check(not unread, rule,
+              ctx.mkey("parsers", "DURATION_REGEXES:float-spellings"),
+              "parsers.py", "every spelling str() gives a float component "
+              "(plain, decimal comma/point, exponent) is read back whole",
+              "the duration regexes do not read %s as one number although "
+              "Duration.__str__ writes a small or large float component in "
+              "exactly that form (str(5e-05) is '5e-05')" % unread[:4], P)
     # the sign is taken out before any field is written: every return that
     # formats a field lies behind the guard returning "-" + str(abs(self))
     from ..flow import path_conds
@@ -777,6 +821,7 @@ def r28_rec_table(ctx):
     interp = strabs.Interp(ctx, f)
     writer = {}
     prefixes = set()
+    projected = set()
     for p_ in explore(f.node.body):
         if p_.outcome != "return" or p_.value is None:
             continue
@@ -808,6 +853,9 @@ def r28_rec_table(ctx):
         seps = []
         for kind, text in toks:
             if kind == "V":
+                if text not in ("duration", "start_point", "second_point",
+                                "end_point"):
+                    projected.add(text)
                 comps.append("duration" if "duration" in text else (
                     "point" if text.endswith("_point") else "?"))
             elif text:
@@ -832,6 +880,13 @@ def r28_rec_table(ctx):
                   "order" % (k, "/".join(want[k])),
                   "notation %d is written as %s; readers exist for %s" % (
                       k, sorted(got), sorted(reader)), P)
+    rep.check(not projected, rule, ctx.fkey(f, None, "components-verbatim"),
+              f.loc(), "every component is written as str() of the stored "
+              "component itself",
+              "TimeRecurrence.__str__ writes %s instead of the stored "
+              "component: whatever that conversion drops (a time part, when "
+              "an interval is re-expressed in weeks) is not read back" %
+              sorted(projected), P)
     # R prefix and count
     rep.check(prefixes == {"R/", "Rn/"}, rule,
               ctx.fkey(f, None, "prefix"), f.loc(),
